@@ -208,6 +208,9 @@ func builtin_print(self py.Object, args py.Tuple, kwargs py.StringDict) (py.Obje
 	sep := sepObj.(py.String)
 	end := endObj.(py.String)
 
+	if stdout == nil {
+		return nil, py.ExceptionNewf(py.RuntimeError, "lost sys.stdout")
+	}
 	write, err := py.GetAttrString(stdout, "write")
 	if err != nil {
 		return nil, err
